@@ -144,13 +144,15 @@ def gen_assembly(rng):
         # distinct names that a numeric-aware comparison may take for equal
         names += rng.choice([["ctg_7", "ctg_07"], ["chr1", "chrI"], ["c2", "c02", "c002"], ["s1.1", "s1.01"]])
     scs = []
+    # (chromosome-sized pieces in some assemblies: a piece of a few Mbp inside one of tens of Mbp)
+    scale = rng.choice([1, 1, 1, 1, 250_000, 1_000_000])
     for si in range(rng.randint(1, 5)):
         rows = []
         for _ in range(rng.randint(1, 7)):
             if rows and rng.random() < 0.3:
                 rows.append(["G", rng.choice([1, 100, 200]), "scaffold"])
-            st = rng.randint(1, 60)
-            rows.append(["F", rng.choice(names), st, st + rng.choice([0, 1, 5, 20, 60]), rng.choice([1, -1]), []])
+            st = rng.randint(1, 60) * scale - rng.choice([0, scale - 1])
+            rows.append(["F", rng.choice(names), st, st + rng.choice([0, 1, 5, 20, 60]) * scale, rng.choice([1, -1]), []])
             if rng.random() < 0.15:
                 rows.append(list(rows[-1]))  # exact duplicate
                 rows[-1][5] = []
